@@ -249,7 +249,7 @@ HARNESSES = [
     {'id': 1, 'name': 'h_cvec', 'lib': False, 'flags': ['-Wl,--wrap=free', '-Wl,--wrap=malloc'], 'leaks': True, 'gen': gen_cvec, 'n': (140, 1200), 'quick': True, 'owner': 'C32'},
     {'id': 3, 'name': 'h_opresult', 'lib': False, 'flags': ['-std=c++17'], 'leaks': True, 'gen': gen_opresult, 'n': (300, 2000), 'quick': True, 'owner': 'C40'},
     {'id': 4, 'name': 'h_oncefn', 'lib': True, 'flags': ['-Wl,--wrap=malloc', '-Wl,--wrap=free'], 'leaks': True, 'gen': gen_oncefn, 'n': (520, 2000), 'quick': True, 'owner': 'C39'},
-    {'id': 11, 'name': 'h_timedtask', 'lib': True, 'flags': [], 'leaks': False, 'gen': gen_timedtask, 'n': (120, 1500), 'quick': True, 'owner': 'C26'},
+    {'id': 11, 'name': 'h_timedtask', 'lib': True, 'flags': [], 'leaks': False, 'gen': gen_timedtask, 'n': (100, 1500), 'quick': True, 'owner': 'C26'},
     {'id': 6, 'name': 'h_poolalloc', 'lib': True, 'flags': [], 'leaks': True, 'gen': gen_poolalloc, 'n': (300, 2000), 'quick': False, 'owner': 'C42'},
     {'id': 7, 'name': 'h_spsc', 'lib': False, 'flags': [], 'leaks': False, 'gen': gen_spsc, 'n': (120, 1000), 'quick': False, 'owner': 'C35'},
     {'id': 8, 'name': 'h_mpmc', 'lib': False, 'flags': [], 'leaks': False, 'gen': gen_mpmc, 'n': (120, 1000), 'quick': False, 'owner': 'C34'},
@@ -292,7 +292,7 @@ def split_per_case(out, ncases):
 def run_sanitized(h, exe, lines, quick):
     """-> (records, problems): records = {line index: (kind, summary, output tail, group)} for every case that produced a report
     (all other cases are clean); problems = harness runs that ended abnormally WITHOUT a sanitizer report (timeouts etc.)"""
-    nshard = 1 if len(lines) < 40 else (4 if h['leaks'] else 8)
+    nshard = 1 if len(lines) < 40 else (4 if h['leaks'] else 12)
     k = (len(lines) + nshard - 1) // nshard
     shards = [list(range(i, min(i + k, len(lines)))) for i in range(0, len(lines), k)]
     timeout = 120 if quick else 600
@@ -334,8 +334,9 @@ def run_sanitized(h, exe, lines, quick):
 
 # ------------------------------------------------------------------------------------------------ C26's domains for TimedTask reports
 def c26_masks(ctx, cases):
-    """C26's own judge (Coq judge_tt, on the trace of the UNINSTRUMENTED build of the same case) -> known-domain mask per case:
-    bit 1 (value 2) = closure access after ~TimedTask returned, bit 2 (value 4) = start after a false return, 1 = start after cancel"""
+    """C26's own judge (Coq judge_tt, on the trace of the UNINSTRUMENTED build of the same case) -> owner mask per case
+    (Model/C11Check.v): 1 = start after cancel, 2 = closure access after ~TimedTask returned, 4 = start after a false return,
+    8 = C26's model run saw a closure use-after-free not after the destructor's return (wrapper's func = {}), 16 = empty func called"""
     C26 = importlib.import_module('C26')
     exe = dv.build_harness('h_timedtask', ['h_timedtask.cpp'])
     outs = ls_common.run_cases(exe, [C26.line_of(c) for c in cases], jobs=min(8, max(1, len(cases))))
@@ -352,14 +353,19 @@ def c26_masks(ctx, cases):
         ctx.broken.append('C26 judge_tt no longer evaluates: TimedTask reports cannot be classified (all treated as outside the known domains)')
         return masks
     for i, v in zip(slots, verdicts):
-        base = v % 100
-        masks[i] = base - 8 if base >= 8 else 0
+        base, obs = v % 100, v // 100
+        masks[i] = (base - 8 if base >= 8 else 0) + (8 if obs & 2 else 0) + (16 if obs & 1 else 0)
     return masks
 
 
-def coq_strings(ctx, name):
-    rc, out = dv.coq_eval(ctx.work, 'names_' + name, 'From DV Require Import Props.Properties_C11.\nEval vm_compute in %s.\n' % name, 300)
-    return re.findall(r'"((?:[^"]|"")*)"', out) if rc == 0 else None
+def coq_names(ctx):
+    """the two lists as Coq has them (C11_covered_mechanisms = map mech_name all_mechanisms, C11_not_covered = not_covered_names)"""
+    rc, out = dv.coq_eval(ctx.work, 'names', 'From Coq Require Import List String.\nFrom DV Require Import Model.C11Check.\nOpen Scope string_scope.\nOpen Scope list_scope.\n'
+                          'Eval vm_compute in (map mech_name all_mechanisms).\nEval vm_compute in not_covered_names.\n', 300)
+    vals = dv.eval_results(out) if rc == 0 else []
+    if len(vals) != 2:
+        return None, None
+    return [re.findall(r'"((?:[^"]|"")*)"', v) for v in vals]
 
 
 def judge_records(ctx, recs):
@@ -375,7 +381,7 @@ def judge_records(ctx, recs):
     return dict(zip(recs, dv.parse_zlist(vals[0])))
 
 
-def sanitizer_job(h, rng, quick, replay_line=None):
+def sanitizer_job(ctx, h, rng, quick, replay_line=None):
     """build + generate + run one harness; runs in a worker thread (own PRNG derived from ctx.rng in table order)"""
     name, exe, err, bsecs = build_one(h)
     if exe is None:
@@ -389,6 +395,9 @@ def sanitizer_job(h, rng, quick, replay_line=None):
     records, problems = run_sanitized(h, exe, lines, quick)
     if problems:                           # e.g. a time-out on a loaded machine: once more before complaining
         records, problems = run_sanitized(h, exe, lines, quick)
+    if h['id'] == H_TIMEDTASK and 'cases' in meta:      # C26's domains for the use-after-free reports
+        tt = [i for i, r in sorted(records.items()) if r[0] == 2 and len(r[3]) == 1]
+        meta['masks'] = dict(zip(tt, c26_masks(ctx, [meta['cases'][i] for i in tt]))) if tt else {}
     return {'h': h, 'exe': exe, 'lines': lines, 'meta': meta, 'records': records, 'problems': problems, 'build_s': bsecs, 'run_s': round(time.time() - t0, 1)}
 
 
@@ -402,17 +411,33 @@ def run(ctx):
         hs = [h for h in HARNESSES if h['name'] == replay.get('harness')] or hs
     rngs = {h['name']: random.Random(ctx.rng.getrandbits(64)) for h in HARNESSES}      # table order: independent of the tier's selection
     pool = cf.ThreadPoolExecutor(max_workers=len(hs))
-    futs = [pool.submit(sanitizer_job, h, rngs[h['name']], quick, replay.get('case') if replay else None) for h in hs]
+    futs = [pool.submit(sanitizer_job, ctx, h, rngs[h['name']], quick, replay.get('case') if replay else None) for h in hs]
 
     # ---- (1) theorems (meanwhile the sanitizer builds and runs proceed in the worker threads)
-    rep = dv.gen(['chunk', 'cvec', 'bitmath'])         # the corollaries rest on definitions regenerated from the source (C17, C32, C44)
+    # C11_chunk_arith_no_ub is stated over the staticChunkSize REGENERATED from the source (the cvec / bitmath groups are regenerated by
+    # C32 / C44).  The translator run is slow (clang AST of the parallel_for headers): it runs beside the proof build, and the build
+    # is repeated when it changed the generated file.
+    import hashlib
+    genfile = os.path.join(dv.COQ, 'Gen', 'GenChunk.v')
+
+    def gen_hash():
+        return hashlib.sha1(open(genfile, 'rb').read()).hexdigest() if os.path.exists(genfile) else None
+    side = cf.ThreadPoolExecutor(max_workers=2)
+    before = gen_hash()
+    gen_f = side.submit(dv.gen, ['chunk'])
+    names_f = side.submit(coq_names, ctx)
+    ctx.prove(models=['Model/C11Check.v'])
+    rep = gen_f.result()
     if any(rep.values()):
         ctx.broken.append('translator: ' + str(rep)[:500])
     ctx.cov['translator_report'] = rep
     ctx.phase('translate')
-    ctx.prove(models=['Model/C11Check.v'])
-    covered = coq_strings(ctx, 'C11_covered_mechanisms')
-    notcov = coq_strings(ctx, 'C11_not_covered')
+    if gen_hash() != before:
+        ctx.cov['reproved_after_regeneration'] = True
+        ctx.broken = [b for b in ctx.broken if not b.startswith('proof obligations no longer check')]
+        ctx.prove(models=['Model/C11Check.v'])
+    covered, notcov = names_f.result()
+    side.shutdown()
     ctx.cov['mechanisms_covered_by_theorems'] = covered if covered is not None else '(Properties_C11 does not load: see broken obligations)'
     ctx.cov['not_covered_by_any_theorem'] = notcov if notcov is not None else '(Properties_C11 does not load)'
     ctx.cov['statement_of_coverage'] = ('PARTIAL: the theorems cover exactly the mechanisms listed in mechanisms_covered_by_theorems, each under the hypotheses of its '
@@ -440,7 +465,7 @@ def run(ctx):
         table[h['name']] = {'owner': h['owner'], 'cases_run': len(j['lines']), 'flags': ' '.join(SAN), 'library_instrumented': h['lib'],
                             'leak_checked_at_exit': h['leaks'], 'cases_with_report': len(j['records']), 'reports_by_kind': kinds,
                             'build_s': j['build_s'], 'run_s': j['run_s']}
-        table[h['name']].update({k: v for k, v in j['meta'].items() if k != 'cases'})
+        table[h['name']].update({k: v for k, v in j['meta'].items() if k not in ('cases', 'masks')})
         ctx.cov['evaluations'] += len(j['lines'])
         ctx.cov['distinct_nontrivial'] += len(set(j['lines']))
     ctx.cov['sanitizer_harnesses'] = table
@@ -449,13 +474,10 @@ def run(ctx):
                        'every case is run on the harness built with ' + ' '.join(SAN) + ' (library objects too); non-trivial = every case (each drives the real container / '
                        'allocator / lifetime protocol through at least one operation); distinct = distinct case lines')
 
-    # TimedTask reports: C26's domains
-    tt = [(j, i) for j, i, kd, _, _, _ in flat if j['h']['id'] == H_TIMEDTASK and kd == 2 and 'cases' in j['meta']]
-    masks = {}
-    if tt:
-        ms = c26_masks(ctx, [j['meta']['cases'][i] for j, i in tt])
-        masks = {i: m for (_, i), m in zip(tt, ms)}
-    ctx.phase('classify')
+    masks = {}              # TimedTask reports: C26's domains (computed in the worker)
+    for j in jobs:
+        if 'error' not in j and j['h']['id'] == H_TIMEDTASK:
+            masks = j['meta'].get('masks', {})
     recs = [(j['h']['id'], kd, masks.get(i, 0) if j['h']['id'] == H_TIMEDTASK else 0) for j, i, kd, _, _, _ in flat if kd != 99]
     clean_recs = [(h['id'], 0, 0) for h in hs]
     verdict = judge_records(ctx, recs + clean_recs)
